@@ -4,7 +4,7 @@ import HexProps.C01
 C02 – Readings of closed candles are final: no look-ahead, no repainting.
 
 Proved, for every float carrier `F`, for LEAF indicators under their `Contract`; on a collapsing
-timeframe (no fill): all buckets but the still-forming last one of an earlier snapshot are a
+timeframe (gap filling off or on): all buckets but the still-forming last one of an earlier snapshot are a
 prefix of every later snapshot (`closed_candles_final_leaf_tf`); on the base timeframe (where
 every candle, the newest included, is closed): the snapshot after any prefix of
 an append history is a list prefix – full candles: OHLCV, timestamp, both reading dicts – of the
@@ -54,6 +54,22 @@ theorem closed_candles_final_leaf_tf (tf : Int) (htf : 0 < tf) (ind : Ind F) (hl
   rw [List.flatten_append, ← List.append_assoc] at r₂
   exact closed_prefix_tf tf htf ind _ _ snap₁ snap₂ hraw' r₁ r₂
 
+/-- **Closed candles are final with gap filling**: all candles (real buckets and inserted flat
+candles, with their readings) of the earlier snapshot except the last one are a prefix of the
+later snapshot. -/
+theorem closed_candles_final_leaf_fill (tf : Int) (htf : 0 < tf) (ind : Ind F) (hl : IsLeaf ind)
+    (K : Contract ind) (init : List (Candle F)) (chunks₁ chunks₂ : List (List (Candle F)))
+    (hraw : RawTf (init ++ (chunks₁ ++ chunks₂).flatten)) (snap₁ snap₂ : List (Candle F))
+    (h₁ : candlesOf (runIndicator ind (cfgFill tf) init chunks₁) = .ok snap₁)
+    (h₂ : candlesOf (runIndicator ind (cfgFill tf) init (chunks₁ ++ chunks₂)) = .ok snap₂) :
+    closed (some tf) snap₁ <+: snap₂ := by
+  have hraw' : RawTf ((init ++ chunks₁.flatten) ++ chunks₂.flatten) := by
+    simpa [List.flatten_append, List.append_assoc] using hraw
+  have r₁ := runIndicator_fill_refines tf htf ind hl K init chunks₁ hraw'.append_left snap₁ h₁
+  have r₂ := runIndicator_fill_refines tf htf ind hl K init (chunks₁ ++ chunks₂) hraw snap₂ h₂
+  rw [List.flatten_append, ← List.append_assoc] at r₂
+  exact closed_prefix_fill tf htf ind _ _ snap₁ snap₂ hraw' r₁ r₂
+
 /-- **Truncation of a batch run**: `calculate()` over the first `k` candles gives the first `k`
 candles of `calculate()` over the whole stream. -/
 theorem batch_truncation_leaf (ind : Ind F) (hl : IsLeaf ind) (K : Contract ind)
@@ -86,28 +102,38 @@ theorem no_lookahead_leaf (ind : Ind F) (hl : IsLeaf ind) (K : Contract ind)
   exact (Except.ok.inj a).symm
 
 /-- **C02, partial: all covered kinds** (`Covered`: every shipped leaf class, the Amorph wrapper of
-the pattern / movement functions included), base timeframe (`tf = none`) or collapsing timeframe without fill: closed candles of an
-earlier snapshot are a prefix of every later snapshot. -/
-theorem C02_partial (tf : Option Int) (htf : ∀ t, tf = some t → 0 < t) (k : Kind F) (name : String)
-    (round : Nat) (hk : Covered name k) (init : List (Candle F)) (chunks₁ chunks₂ : List (List (Candle F)))
+the pattern / movement functions included), base timeframe (`tf = none`) or collapsing timeframe
+with gap filling off or on: closed candles of an earlier snapshot are a prefix of every later
+snapshot.  (`timeframe_fill` has no effect without a timeframe.) -/
+theorem C02_partial (tf : Option Int) (htf : ∀ t, tf = some t → 0 < t) (fill : Bool) (k : Kind F)
+    (name : String) (round : Nat) (hk : Covered name k) (init : List (Candle F))
+    (chunks₁ chunks₂ : List (List (Candle F)))
     (hraw : RawTf (init ++ (chunks₁ ++ chunks₂).flatten)) (snap₁ snap₂ : List (Candle F))
-    (h₁ : candlesOf (runIndicator (mkTop k name round) { tf := tf } init chunks₁) = .ok snap₁)
-    (h₂ : candlesOf (runIndicator (mkTop k name round) { tf := tf } init (chunks₁ ++ chunks₂)) = .ok snap₂) :
+    (h₁ : candlesOf (runIndicator (mkTop k name round) { tf := tf, fill := fill && tf.isSome } init chunks₁)
+      = .ok snap₁)
+    (h₂ : candlesOf (runIndicator (mkTop k name round) { tf := tf, fill := fill && tf.isSome } init
+      (chunks₁ ++ chunks₂)) = .ok snap₂) :
     closed tf snap₁ <+: snap₂ := by
   obtain ⟨K⟩ := hk.contract round
   cases tf with
   | none =>
+    simp only [Option.isSome_none, Bool.and_false] at h₁ h₂
     obtain ⟨s₁, hs₁, hpre⟩ := closed_candles_final_leaf _ (hk.isLeaf round) K init chunks₁ chunks₂
       hraw.plain snap₂ h₂
     rw [h₁] at hs₁
     cases hs₁
     exact hpre
   | some t =>
-    exact closed_candles_final_leaf_tf t (htf t rfl) _ (hk.isLeaf round) K init chunks₁ chunks₂ hraw
-      snap₁ snap₂ h₁ h₂
+    cases fill with
+    | false =>
+      exact closed_candles_final_leaf_tf t (htf t rfl) _ (hk.isLeaf round) K init chunks₁ chunks₂ hraw
+        snap₁ snap₂ h₁ h₂
+    | true =>
+      exact closed_candles_final_leaf_fill t (htf t rfl) _ (hk.isLeaf round) K init chunks₁ chunks₂ hraw
+        snap₁ snap₂ h₁ h₂
 
 /-- **C02 at full strength** (every shipped kind, timeframes, gap filling).  NOT proved yet; see
-`C01_FULL` for what is missing (the remaining contracts, trees with helpers, gap filling). -/
+`C01_FULL` for what is missing (trees with helpers, indicator-on-indicator inputs). -/
 def C02_FULL (F : Type) [PyF F] : Prop :=
   ∀ (k : Kind F) (name : String) (round : Nat) (tf : Option Int) (fill : Bool)
     (init : List (Candle F)) (chunks₁ chunks₂ : List (List (Candle F))) (snap₁ snap₂ : List (Candle F)),
